@@ -436,6 +436,18 @@ static void do_abandon(void) {
     snapshot_at_entry = sv_snap; want_digest = sv_dig; sigaction(SIGALRM, &old, NULL);
     out("{\"call\":\"abandoned\",\"returned_normally\":%d,\"rec_calls\":%d}\n", returned, R.calls);
 }
+/* ... or that forks once more there and lets the grandchild exec (a double-fork daemoniser hooked into atfork): the nested fork() runs the
+   library's prepare handler while the note of the outer fork is still set */
+static void atfork_child_fork_exec(void) {
+    static int nested; if (nested) return; nested = 1;      /* the grandchild runs this handler again: once is enough */
+    pid_t g = fork();
+    if (g == 0) { static char *av[] = { "from-grandchild", NULL }; memset(&R, 0, sizeof R); R.is_execve = 1; R.ret = -1; R.err = ENOENT; int sl = lean, ss = snapshot_at_entry, sd = want_digest; lean = 1; snapshot_at_entry = 0; want_digest = 0;
+        R.path_copy = "/nonexistent/grandchild"; R.path_ptr = R.path_copy; R.argv_ptr = av; R.argv_copy = av; R.envp_ptr = environ; R.envp_copy = environ; R.environ_ptr = environ; R.environ_copy = environ;
+        execve("/nonexistent/grandchild", av, environ); lean = sl; snapshot_at_entry = ss; want_digest = sd; _exit(R.calls == 1 ? 0 : 9); }
+    int st = 0; while (g > 0 && waitpid(g, &st, 0) < 0 && errno == EINTR) {}
+    nested = 0;
+    out("{\"atfork_child_call\":1,\"ret\":-1,\"reached_real_exec\":%d,\"nested_fork\":1}\n", (g > 0 && WIFEXITED(st) && WEXITSTATUS(st) == 0) ? 1 : 0);
+}
 static long onthread_kb = 0;
 struct thr_call { char **tok; int nt; };
 static void *thr_call_main(void *a) { struct thr_call *tc = a; do_call(tc->tok, tc->nt); return NULL; }
@@ -573,6 +585,7 @@ int main(int argc, char **argv) {
         else if (!strcmp(tok[0], "hugecall")) do_hugecall(nt > 1 ? tok[1] : "mid");
         else if (!strcmp(tok[0], "nonblock")) { /* the caller keeps this descriptor in non-blocking mode (an event-driven program): the mode belongs to the shared open file description */
             int fd = atoi(tok[1]); int fl = fcntl(fd, F_GETFL); if (fl < 0 || fcntl(fd, F_SETFL, fl | O_NONBLOCK)) { perror("nonblock"); return 3; } }
+        else if (!strcmp(tok[0], "atforkfork")) { if (pthread_atfork(NULL, NULL, atfork_child_fork_exec)) { perror("pthread_atfork"); return 3; } }
         else if (!strcmp(tok[0], "atforkexec")) { if (pthread_atfork(NULL, NULL, atfork_child_exec)) { perror("pthread_atfork"); return 3; } }
         else if (!strcmp(tok[0], "prname")) { char *p = mkstr(tok[1]); prctl(PR_SET_NAME, p, 0, 0, 0); free(p); }
         else if (!strcmp(tok[0], "echo")) out("{\"echo\":\"%s\"}\n", nt > 1 ? tok[1] : "");
